@@ -34,7 +34,7 @@ var hookCalls = []string{"send", "reopen", "rmpipenodes", "rmnode-unused", "rmpi
 	"rmpipenodes-dup", "rmpipe-dup", "regpipe-dup-overwrite",
 	// closing wrapped nodes (NodeUnwrapper), also one whose Unwrap returns nil
 	"rmnode-wrapper", "rmnode-wrapper-nil", "rmpipenodes-wrapper-nil"}
-var gatedCalls = []string{"send-expiring", "send-flush", "rmpipenodes", "rmpipe+rmnode", "reopen"}
+var gatedCalls = []string{"send-expiring", "send-flush", "rmpipenodes", "rmpipe+rmnode", "reopen", "reopen-expired", "regnode-replace"}
 
 func scenarios(tier string) []scenario {
 	var out []scenario
@@ -172,6 +172,15 @@ func body(sc scenario) func() string {
 			ret = fmt.Sprint(err != nil)
 		case "reopen":
 			ret = fmt.Sprint(b.Reopen(ctx) != nil)
+		case "reopen-expired":
+			// the pending groups have expired by the time Reopen reaches the filter
+			clk.Advance(2 * time.Second)
+			ret = fmt.Sprint(b.Reopen(ctx) != nil)
+		case "regnode-replace":
+			// the filter's pipeline is removed, then its node id is registered again (a replacement): whatever
+			// the broker does with the replaced filter and the groups it still holds must terminate
+			b.RemovePipeline("t1", "p1")
+			ret = fmt.Sprint(b.RegisterNode("f", hn.NewNode(log, "f2", el.NodeTypeFilter, hn.Pass, nil).AsNode()) != nil)
 		case "rmpipenodes":
 			ok, err := b.RemovePipelineAndNodes(ctx, "t1", "p1")
 			ret = fmt.Sprint(ok, err != nil)
@@ -310,7 +319,7 @@ func main() {
 			ex := &vrt.Explorer{Bound: sc.Bound, Body: body(sc)}
 			return hk.ExploreJob(prop, job, deadline, ex, sc.Name)
 		},
-		Rule: "scenarios: every Broker call, including every early-return / error path (unknown and empty event types, ids and policies, denied overwrites, invalid pipelines, negative thresholds, a Reopen failing in one or in two event types, removing / overwriting a pipeline that lists a node id twice), x a harness node that re-enters Send on the same Broker from Process / Close / Reopen, and the real gated.Filter (Broker = the same broker) with 0..3 pending groups, x {no other thread, a concurrent RegisterNode waiting for the write lock, a concurrent Send, a concurrent RemovePipelineAndNodes}; every schedule within the preemption bound on the real code with the modelled writer-preferring RWMutex; verdict: deadlock (with each blocked thread's lock and stack), plus the Broker must accept a write-locking call afterwards",
+		Rule: "scenarios: every Broker call, including every early-return / error path (unknown and empty event types, ids and policies, denied overwrites, invalid pipelines, negative thresholds, a Reopen failing in one or in two event types, removing / overwriting a pipeline that lists a node id twice), x a harness node that re-enters Send on the same Broker from Process / Close / Reopen, and the real gated.Filter (Broker = the same broker) with 0..3 pending groups (calls: a Send that expires them, a flush event, removals, Reopen before and after their expiry, replacing the filter's node id), x {no other thread, a concurrent RegisterNode waiting for the write lock, a concurrent Send, a concurrent RemovePipelineAndNodes}; every schedule within the preemption bound on the real code with the modelled writer-preferring RWMutex; verdict: deadlock (with each blocked thread's lock and stack), plus the Broker must accept a write-locking call afterwards",
 		Assumptions: []string{
 			"RWMutex model follows sync.RWMutex: a Lock that has announced itself blocks later RLocks, so reader recursion with a waiting writer deadlocks in the model as in Go",
 			"'bounded time' is judged as: every thread finishes in every explored schedule (no deadlock, step horizon 40000)",
